@@ -6,8 +6,7 @@
   M = `Parse.parseNode` (Impl/ParseConfig.lean) on an empty target, with the format description of the
   style and all name flags set.
 -/
-import MptModel.Lemmas.ParseLoop
-import MptModel.Spec.Render
+import MptModel.Lemmas.FlatTree
 
 namespace Mpt.C09
 open Mpt Mpt.Parse Mpt.Render Mpt.Conf
@@ -28,9 +27,82 @@ def decor_invariant_statement : Prop :=
   ∀ (style : Style) (d : Decor) (f : Forest), d.ok → admissible style f = true →
     parseTree style (render style d f) = parseTree style (render style noDecor f)
 
-/-- the second statement follows from the first -/
-theorem decor_invariant_of_roundtrip (h : roundtrip_statement) : decor_invariant_statement := by
-  intro style d f hd ha
-  rw [h style d f hd ha, h style noDecor f (by intro k; rfl) ha]
+/-- **Round trip, every style**: every admissible forest — brace style: any depth, any fan-out; flat
+    styles: options and one level of sections; in all styles duplicate names, empty sections and empty
+    values, values of any length, plain or needing quotes (blanks at the ends, `#`, quotes, backslashes,
+    line feeds, bytes ≥ 0x80) — written with ANY valid decoration (blank and comment lines,
+    indentation, blanks around `=` and in front of `{`, trailing blanks and trailing comments, chosen
+    per line) is read back by `mpt_parse_node` as exactly its normal form: same nesting, same order,
+    same names, same values byte for byte. -/
+theorem roundtrip (style : Style) (d : Decor) (hd : d.ok) (f : Forest) (ha : admissible style f = true) :
+    parseTree style (render style d f) = some (norm f) := by
+  unfold admissible at ha
+  simp only [Bool.and_eq_true] at ha
+  obtain ⟨hok, hshape⟩ := ha
+  have key : ∀ (text : List UInt8), (parseNode [] style.desc 0xff 0xff (-2) text).code = 0 →
+      (parseNode [] style.desc 0xff 0xff (-2) text).children = norm f → parseTree style text = some (norm f) := by
+    intro text hc hch
+    unfold parseTree
+    rw [hc, hch]
+    rfl
+  cases style with
+  | brace =>
+    obtain ⟨hc, hch⟩ := parseNode_brace d hd f hok
+    exact key _ hc hch
+  | sep =>
+    obtain ⟨hc, hch⟩ := parseNode_flat sectStyle_Sep (Style.desc .sep) 32 cfgS_desc (by decide) rfl d hd f hshape hok
+    exact key _ hc hch
+  | bar =>
+    obtain ⟨hc, hch⟩ := parseNode_flat sectStyle_Bar (Style.desc .bar) 120 cfgBar_desc (by decide) rfl d hd f hshape hok
+    exact key _ hc hch
+  | enc =>
+    obtain ⟨hc, hch⟩ := parseNode_enc d hd f hshape hok
+    exact key _ hc hch
+
+/-- the full statement holds -/
+theorem roundtrip_holds : roundtrip_statement := fun style d f hd ha => roundtrip style d hd f ha
+
+/-- **Decoration is insignificant**: adding or removing blank lines, comment lines, indentation,
+    blanks around the assignment character, trailing blanks and trailing comments never changes what
+    is read (every style). -/
+theorem decor_invariant (style : Style) (d : Decor) (hd : d.ok) (f : Forest) (ha : admissible style f = true) :
+    parseTree style (render style d f) = parseTree style (render style noDecor f) := by
+  rw [roundtrip style d hd f ha, roundtrip style noDecor (by intro k; rfl) f ha]
+
+/-- the full decoration statement holds -/
+theorem decor_invariant_holds : decor_invariant_statement :=
+  fun style d f hd ha => decor_invariant style d hd f ha
+
+/-! ### non-vacuity -/
+section examples
+/-- a forest with nesting, duplicate names, an empty section, an empty value, a value that needs quotes
+    and one with an escaped quote -/
+def sample : Forest :=
+  [.node (str "d") (some (str "#h")) [],
+   .node (str "a") none [.node (str "b") (some (str "1")) [], .node (str "b") (some (str "x \"y")) [],
+                         .node (str "sub") none [.node (str "e") none []]],
+   .node (str "a") none [.node (str "f") (some []) []]]
+
+example : admissible .brace sample = true := by decide +kernel
+example : (decorOf 2 0).ok = true ∧ (decorOf 2 1).ok = true ∧ (decorOf 2 2).ok = true := by decide +kernel
+/-- the text really carries decoration and quoting -/
+example : render .brace (decorOf 1) [.node (str "a") none [.node (str "b") (some (str "x \"y")) []]]
+    = str "a {\n b = \"x \\\"y\"\n  }\n" := by decide +kernel
+/-- the theorem's conclusion on the sample, evaluated by the kernel (all four styles) -/
+example : (parseTree .brace (render .brace (decorOf 2) sample)).map (flat 0) = some (flat 0 (norm sample)) := by
+  decide +kernel
+example : (parseTree .sep (render .sep (decorOf 2) [.node (str "o") (some (str "1")) [],
+      .node (str "s") none [.node (str "b") (some (str "x \"y")) []]])).map (flat 0)
+    = some [(0, str "o", some (str "1")), (0, str "s", none), (1, str "b", some (str "x \"y"))] := by
+  decide +kernel
+example : (parseTree .bar (render .bar (decorOf 1) [.node (str "o") (some (str "1")) [],
+      .node (str "s") none [.node (str "b") (some (str " v ")) []]])).map (flat 0)
+    = some [(0, str "o", some (str "1")), (0, str "s", none), (1, str "b", some (str " v "))] := by
+  decide +kernel
+example : (parseTree .enc (render .enc (decorOf 3) [.node (str "o") (some (str "1")) [],
+      .node (str "p") (some (str "#")) []])).map (flat 0)
+    = some [(0, str "o", some (str "1")), (0, str "p", some (str "#"))] := by
+  decide +kernel
+end examples
 
 end Mpt.C09
